@@ -7,13 +7,13 @@ import XotModel.Lemmas.FinvMap
 namespace XotModel
 open HTree
 
-theorem findList?_append_left {h : Nat} {a b : List HTree} {t : HTree} (hs : findList? h a = some t) :
+theorem fi_findList?_append_left {h : Nat} {a b : List HTree} {t : HTree} (hs : findList? h a = some t) :
     findList? h (a ++ b) = some t := by
   induction a with
   | nil => simp [findList?] at hs
   | cons k ks ih =>
-    rw [List.cons_append, findList?_cons]
-    rw [findList?_cons] at hs
+    rw [List.cons_append, fi_findList?_cons]
+    rw [fi_findList?_cons] at hs
     cases hk : find? h k with
     | some t' => rw [hk] at hs; simpa using hs
     | none => rw [hk] at hs; simp only [Option.none_or] at hs ⊢; exact ih hs
@@ -23,7 +23,7 @@ namespace Forest
 theorem get?_newNode_of_some {f : Forest} {x : Nat} {t : HTree} (v : Value) (h : f.get? x = some t) :
     (f.newNode v).1.get? x = some t := by
   unfold get? at h ⊢
-  exact findList?_append_left h
+  exact fi_findList?_append_left h
 
 theorem value?_newNode_of_some {f : Forest} {x : Nat} {w : Value} (v : Value) (h : f.value? x = some w) :
     (f.newNode v).1.value? x = some w := by
@@ -37,7 +37,7 @@ theorem value?_newNode_new {f : Forest} (hi : f.Inv) (v : Value) :
   have hn : f.next ∉ handlesList f.roots := fun hc => Nat.lt_irrefl _ (hi.below _ hc)
   unfold value? get? newNode
   simp only
-  rw [findList?_append_of_not_mem _ _ _ hn, findList?_cons, find?, if_pos rfl]
+  rw [fi_findList?_append_of_not_mem _ _ _ hn, fi_findList?_cons, find?, if_pos rfl]
   rfl
 
 theorem mapGetNode_newNode {f : Forest} (k : MapKind) {parent : Nat} {K : HTree} (key : Nat) (v : Value)
